@@ -15,7 +15,7 @@ from harness.common import MachineryError, VERIF, PY
 FORMULAS = {
     "C09": {"ExactlyOnce", "NoRunWhileStopped", "Fifo1", "FutureFaithful", "NotStranded"},
     "C10": {"MaxRunning", "MaxServing", "MinServing", "NotStranded", "CtorContract"},
-    "C11": {"JoinSound", "WorkersDieAfterStop", "AllDeadAfterStop", "NoDeadlock", "NotStranded"},
+    "C11": {"JoinSound", "WorkersDieAfterStop", "AllDeadAfterStop", "NoDeadlock", "NotStranded", "NoRunWhileStopped"},
 }
 # which algorithm variant /repo is expected to contain (see ThreadPool.tla header)
 FIX = {"FixJoin": "TRUE", "FixGrow": "TRUE"}
@@ -57,9 +57,13 @@ def model_runs(ctx):
     if ctx.tier == "quick":
         cfg = write_cfg(ctx, "gen_TP_%s.cfg" % tag, "Spec2", consts(1, "T2", "G1", "Ops1_5"), SAFETY, ["NoRunWhileStopped"])
         r = ctx.model("MC_TP", cfg, workers=16, timeout=900, extra=["-coverage", "1"], expect_violated=expected())
-        zero = set(r.coverage_zero_actions()) - {"P8", "SpawnRefused"}
+        zero = set(r.coverage_zero_actions()) - {"P8", "SpawnRefused", "E1w", "E1x"}
         if zero:
             raise MachineryError("vacuity: actions never taken in the exhaustive run: %s" % sorted(zero))
+        # bounded task queue (queue_size 1..2): enqueue blocks inside the critical section or raises Full
+        cfgq = write_cfg(ctx, "gen_TPq_%s.cfg" % tag, "SpecCap", consts(1, "T2", "G1", "Ops1_4"), SAFETY, ["NoRunWhileStopped"])
+        ctx.model("MC_TP", cfgq, workers=16, timeout=900)
+        os.remove(os.path.join(common.SPEC, cfgq))
         # clear() among the operations (smaller budget)
         cfgk = write_cfg(ctx, "gen_TPk_%s.cfg" % tag, "Spec2", consts(1, "T2", "G1", "Ops1_4", clear=True), SAFETY, ["NoRunWhileStopped"])
         ctx.model("MC_TP", cfgk, workers=16, timeout=900)
@@ -67,7 +71,7 @@ def model_runs(ctx):
     else:
         cfg = write_cfg(ctx, "gen_TP_%s.cfg" % tag, "Spec2", consts(1, "T3", "G2", "Ops1_6"), SAFETY, ["NoRunWhileStopped"])
         r = ctx.model("MC_TP", cfg, workers=16, timeout=3000, heap="12g", extra=["-coverage", "1"], expect_violated=expected())
-        zero = set(r.coverage_zero_actions()) - {"P8", "SpawnRefused"}
+        zero = set(r.coverage_zero_actions()) - {"P8", "SpawnRefused", "E1w", "E1x"}
         if zero:
             raise MachineryError("vacuity: actions never taken in the exhaustive run: %s" % sorted(zero))
         # two clients: concurrent enqueue / join against start / stop
@@ -78,6 +82,12 @@ def model_runs(ctx):
         cfgk = write_cfg(ctx, "gen_TPk_%s.cfg" % tag, "Spec2", consts(1, "T2", "G1", "Ops1_6", clear=True), SAFETY, ["NoRunWhileStopped"])
         ctx.model("MC_TP", cfgk, workers=16, timeout=3000, heap="12g")
         os.remove(os.path.join(common.SPEC, cfgk))
+        # bounded task queue
+        cfgq = write_cfg(ctx, "gen_TPq_%s.cfg" % tag, "SpecCap", consts(1, "T3", "G2", "Ops1_5"), SAFETY, ["NoRunWhileStopped"])
+        rq = ctx.model("MC_TP", cfgq, workers=16, timeout=3000, heap="12g", extra=["-coverage", "1"])
+        if set(rq.coverage_zero_actions()) - {"P8", "SpawnRefused"}:
+            raise MachineryError("vacuity (bounded queue): %s" % rq.coverage_zero_actions())
+        os.remove(os.path.join(common.SPEC, cfgq))
         # pool sizes up to 3
         cfgc = write_cfg(ctx, "gen_TPc_%s.cfg" % tag, "Spec3", consts(1, "T2", "G1", "Ops1_5", nw=5), SAFETY, ["NoRunWhileStopped"])
         ctx.model("MC_TP", cfgc, workers=16, timeout=3000, heap="12g")
@@ -92,7 +102,7 @@ def model_runs(ctx):
 def sim_behaviours(ctx, num, depth, seed, nc=1, tasks="T3", gated="G2", ops="Ops1_7", spec="SimSpec", tag="a", clear=True):
     """TLC -simulate behaviours of the model as JSON (history variable)."""
     name = "gen_TPSim_%s_%d_%s.cfg" % (ctx.prop, os.getpid(), tag)
-    write_cfg(ctx, name, spec, consts(nc, tasks, gated, ops, nw=4 if spec == "SimSpec" else 5, clear=clear) + ["Depth = %d" % depth], ["Dump"])
+    write_cfg(ctx, name, spec, consts(nc, tasks, gated, ops, nw=5 if spec == "SimSpec3" else 4, clear=clear) + ["Depth = %d" % depth], ["Dump"])
     r = common.tlc("MC_TPSim", name, workers=1, timeout=900, extra=["-simulate", "num=%d" % num, "-depth", str(depth), "-seed", str(seed + 1)])
     os.remove(os.path.join(common.SPEC, name))
     behs, seen = [], set()
@@ -208,6 +218,7 @@ def run(ctx):
     # ---- generator: TLC behaviours replayed into the real pool
     nsim = 120 if quick else 1500
     behs = sim_behaviours(ctx, nsim, 90 if quick else 110, ctx.seed, tag="a")
+    behs += sim_behaviours(ctx, 40 if quick else 600, 90 if quick else 110, ctx.seed + 41, tasks="T3", gated="G2", ops="Ops1_7", spec="SimSpecCap", tag="q")
     if not quick:
         behs += sim_behaviours(ctx, 600, 110, ctx.seed + 17, nc=2, tasks="T3", gated="G2", ops="Ops2_52", tag="b")
         behs += sim_behaviours(ctx, 600, 110, ctx.seed + 29, tasks="T3", gated="G2", ops="Ops1_7", spec="SimSpec3", tag="c")
